@@ -653,7 +653,7 @@ func responseFieldTypes() ([][2]string, error) {
 				return nil, fmt.Errorf("positional ParserResponse literal in %s", l.fn)
 			}
 			k := selPath(kv.Key)
-			if k == "Error" {
+			if k == "Error" || k == "TimeSeriesFpKeys" { // not requests: the parse error and the cache keys handed back to doParse
 				continue
 			}
 			v := selPath(kv.Value) // recv.field
